@@ -1,11 +1,14 @@
 from ..framework import Spec
 from ..ties_out import output_modes_oracle
 from ..sysprog import gen_placement
-from ..ties_sys import sys_tie, placement_tie, isa_tie
+from ..ties_sys import sys_tie, placement_tie, isa_tie, scenario_tie
+from ..scenarios import gen_cond_scenario
 
 SPEC = Spec(pid='C04', coq_needs=['Base', 'Layout', 'LayoutProofs', 'Program', 'Match', 'ProgramIsa', 'Properties/C04'],
             ties=[placement_tie(), sys_tie('C04'),
                   # a macro's reserved size decides where the next line goes
-                  isa_tie({'p_macros': 1.0}, n_quick=200, name='isa_macros')],
+                  isa_tie({'p_macros': 1.0}, n_quick=200, name='isa_macros'),
+                  # zone and origin directives inside unselected branches place nothing and select nothing
+                  scenario_tie('cond_programs', gen_cond_scenario, 150, 3000)],
             # an overlap is reported whichever outputs are requested (binary, --no-binary, pretty print formats)
             oracles=[output_modes_oracle(gen_placement)])
